@@ -888,7 +888,9 @@ pub fn encode(p: &Packet, form: &Form) -> Vec<u8> {
             p_bin(&mut props, 22, &a.data);
             p_str(&mut props, 31, &a.reason_string);
             p_user(&mut props, &a.user_props);
-            if form.short && props.is_empty() && a.reason == 0 {
+            // without properties there is no Authentication Method, which only the
+            // remaining-length-0 form (reason 0) may omit
+            if props.is_empty() && a.reason == 0 {
                 return vec![0xf0, 0];
             }
             let mut body = vec![a.reason];
